@@ -187,6 +187,24 @@ pub fn record_compile(opts: &Opts) -> i32 {
         }
         return 0;
     }
+    if opts.get("profile") == Some("words") {
+        for t in word_programs() {
+            let o = lipe_find_parser::RunOptions::default();
+            let c = run_compile(&t, &o, &paths);
+            emit(&mut out, &json!({"t": expr_to_json(&t), "o": opts_to_json(&o), "c": c}));
+        }
+        return 0;
+    }
+    if opts.get("profile") == Some("longfmt") {
+        let mut sizes = ladder(8, opts.num("size", 300) as usize);
+        if opts.get("few").is_some() { sizes.retain(|d| [20, 41, 65, 129].contains(d) || numdict_new().contains(d)); }
+        for (shape, d, t) in long_format_programs(&sizes) {
+            let o = lipe_find_parser::RunOptions::default();
+            let c = run_compile(&t, &o, &paths);
+            emit(&mut out, &json!({"t": expr_to_json(&t), "o": opts_to_json(&o), "c": c, "shape": shape, "depth": d}));
+        }
+        return 0;
+    }
     if opts.get("profile") == Some("affix") {
         for t in affix_programs() {
             let o = lipe_find_parser::RunOptions::default();
